@@ -153,6 +153,8 @@ type Sim struct {
 	nextPre   int
 	preLeft   int
 	PreMaxGap int
+	PreHits   int // preemption points that fired in this run
+	PreNoStop bool // a zero gap draw does not end the preemptions of this run (dense preemption strata)
 	quiet     atomic.Int32
 
 	// Stalled, when non-nil, reports whether tasks with the given label are currently withheld
@@ -502,8 +504,11 @@ func (s *Sim) armLocked() {
 	}
 	g := s.Tape.Intn(s.PreMaxGap)
 	if g == 0 {
-		s.preLeft = 0
-		return
+		if !s.PreNoStop {
+			s.preLeft = 0
+			return
+		}
+		g = s.PreMaxGap // dense mode: a zero draw is the longest gap, not the end
 	}
 	s.preLeft--
 	s.nextPre = s.pcount + g
@@ -559,6 +564,7 @@ func P() {
 	s.pcount++
 	hit := s.nextPre != 0 && s.pcount >= s.nextPre
 	if hit {
+		s.PreHits++
 		s.armLocked()
 	}
 	s.mu.Unlock()
